@@ -54,7 +54,7 @@ ActsAliasS == {"getitem", "transpose", "ibins", "ibina"}      \* in-place operat
 ActsGet == {"getitem"}
 ActsAll == ActsArith \cup ActsShape
 
-Proj(o) == [k |-> o.k, buf |-> o.buf, shape |-> o.shape, cells |-> o.cells, real |-> RealObj(heap, o),
+Proj(o) == [k |-> o.k, buf |-> o.buf, shape |-> o.shape, cells |-> o.cells, real |-> RealObj(heap, o), ct |-> o.ct,
             vals |-> [c \in 1..Len(o.cells) |-> heap[o.buf][o.cells[c]]]]
 EmitState == Emit => PrintT(ToJson([h |-> hist, o |-> [i \in 1..Len(objs) |-> Proj(objs[i])]]))
 Spec == Init /\ [][Next]_vars
